@@ -16,6 +16,31 @@ OptAlpha   == << [n |-> "Host", v |-> "OPTHOST"], [n |-> "X-A", v |-> "oa"], [n 
 \* thorough: the option list may repeat a name (both values must be added, in order, where the entry has none)
 OptAlphaBig == OptAlpha \o << [n |-> "X-C", v |-> "oc2"] >>
 
+Both     == {TRUE, FALSE}
+OnlyOff  == {FALSE}
+
+\* present-but-empty entry values (the second one is a blank), names the option list also defines
+EmptyAlpha == << [n |-> "X-A", v |-> ""], [n |-> "X-A", v |-> " "], [n |-> "x-c", v |-> ""] >>
+
+\* multi-entry files: 2-3 entries /e1 /e2 /e3 with header lines written before each of them; the lines of the
+\* 2nd and 3rd entry redefine X-A / Host or add x-c (uri/uripost: running state; raw/json: the entry's own)
+HL1 == { <<>>, << [n |-> "X-A", v |-> "ea"] >>, << [n |-> "X-A", v |-> "ea"], [n |-> "Host", v |-> "AMMOHOST"] >> }
+HL2 == { <<>>, << [n |-> "X-A", v |-> "ea2"] >>, << [n |-> "x-c", v |-> "ec"] >>, << [n |-> "Host", v |-> "AMMOHOST2"] >>,
+         << [n |-> "X-A", v |-> "ea2"], [n |-> "Host", v |-> "AMMOHOST2"] >> }
+HL3 == { <<>>, << [n |-> "X-A", v |-> "ea3"] >> }
+FEntry(hl, u, b) == [hl |-> hl, uri |-> u, body |-> b]
+FileOpts == { <<>>, OptAlpha }
+FileBody(f, k) == IF f = "uri" \/ k # 2 THEN "" ELSE "k=v&x=%20 two {\"j\":[1,2]}"
+FileCases(fmts, sslModes) ==
+    UNION { { [kind |-> "file", fmt |-> f, ssl |-> s, preload |-> p, opts |-> o,
+               entries |-> << FEntry(h1, "/e1", FileBody(f, 1)), FEntry(h2, "/e2", FileBody(f, 2)) >> \o rest] :
+                 s \in sslModes, p \in BOOLEAN, o \in FileOpts, h1 \in HL1, h2 \in HL2,
+                 rest \in {<<>>} \cup { << FEntry(h3, "/e3", FileBody(f, 3)) >> : h3 \in HL3 } }
+            : f \in fmts }
+FilesQuick == FileCases(AllFormats, OnlyOff)
+FilesBig   == FileCases(AllFormats, Both)
+NoFiles    == {}
+
 MethodsQuick == {"GET", "POST", "PURGE"}
 MethodsBig   == {"GET", "POST", "HEAD", "PURGE"}
 URIsQuick    == {"/", "/a/b?x=1&y=%20z"}
@@ -25,7 +50,5 @@ NoURIs       == {}
 ExtraBig     == {"/a%2Fb/c;p=1/", "/dbl//slash/../x/./y", "/p|q/r?x=a|b"}
 BodiesOne    == {"k=v&x=%20 two {\"j\":[1,2]}"}
 
-Both     == {TRUE, FALSE}
-OnlyOff  == {FALSE}
 
 =============================================================================
